@@ -661,6 +661,8 @@ def check_registration_commutes(repo, rep):
 
 
 def run(repo, rep):
+    from sa import resmodel
+    resmodel.install(repo, rep)
     rep.rule('R06a', 'provenance: every get_functions implementation '
              'returns a set of overloads; collect_functions returns the '
              'ordered list of those unordered layers')
@@ -687,7 +689,9 @@ def run(repo, rep):
         'holds for every overload family and enumeration order when only '
         'order-insensitive forms occur.')
     from sa.rules import c05
-    c05.check_lazy_agreement_symmetric(repo, rep, rule='R06e')
+    resmodel.guarded(repo, rep, 'R06e',
+                     lambda: c05.check_lazy_agreement_symmetric(
+                         repo, rep, rule='R06e'))
     rep.rule('R06f', 'registration state of a layer is updated only by '
              'commutative operations (no last-writer-wins table keyed by '
              'name)')
